@@ -196,6 +196,10 @@ class TransformationPerformer:
       ]
     consumers = []
     for original_op_id in instruction.consumers:
+      # -1 stands for the graph output, it is not an op in the subgraph.
+      if original_op_id < 0:
+        consumers.append(-1)
+        continue
       consumers.append(
           self._original_op_id_map[transformation_inst.subgraph_id][
               original_op_id
@@ -218,9 +222,17 @@ class TransformationPerformer:
         transformation_inst.subgraph_id,
         trans_info,
     )
+    # Every original op that currently sits at or after the insertion point is
+    # shifted (the op id map is increasing).
+    op_id_map = self._original_op_id_map[transformation_inst.subgraph_id]
+    first_shifted_op_id = len(op_id_map)
+    for original_op_id, current_op_id in enumerate(op_id_map):
+      if current_op_id >= trans_info.op_id:
+        first_shifted_op_id = original_op_id
+        break
     self._update_op_id_map(
         transformation_inst.subgraph_id,
-        min(instruction.consumers),
+        first_shifted_op_id,
         trans_info.num_ops_added,
     )
 
